@@ -34,7 +34,7 @@ Init == \E c \in {c \in Cfgs : Len(c.sel) = Len(c.kind)} : MInit(c)
 
 NDeliver    == \E f \in Files : Deliver(f)
 NSkip       == \E f \in Files : Skip(f)
-NVanish     == \E f \in Files : Vanish(f) \/ VanishNewest(f)
+NVanish     == \E f \in Files : Vanish(f) \/ VanishNewest(f) \/ Consume(f)
 \* in simulation (E2) a crash is drawn less often than the other actions, so that it falls anywhere in a history
 NCrash      == (Scope # "sim" \/ RandomElement(1..8) = 1) /\ Crash
 MkDirs      == pc.f # 0 /\ Step("mkdirs", pc.f)
@@ -61,6 +61,7 @@ W_NoCrashBetweenCopyAndRename ==
   ~(hist.down /\ \E f \in Files : dst.tmp[f] = Full /\ dst.final[f] = Absent /\ src[f] = Full)
 W_NoHalfCopyAfterCrash == ~(hist.down /\ \E f \in Files : dst.tmp[f] = Part)
 W_NoStaleEventOfNewest == ~(last.a = "EndHandler" /\ pc.r = "rb" /\ src[pc.f] = Absent /\ Newest(pc.f) /\ \E g \in MD : g # pc.f /\ src[g] = Full)
+W_NoRemirrorAfterConsume == ~(\E f \in Files : f \in hist.consumed /\ dst.final[f] = Full)
 W_NoStaleEvent   == ~(last.a = "Deliver" /\ src[last.f] = Absent)
 W_NoRepeatedEvent == ~pc.rep
 W_NoStuckTmp     == ~(Quiescent /\ \E f \in Files : StuckTmp(f))
